@@ -22,6 +22,14 @@ func runXferJob(t *testing.T, j *Job, r *evid.Run, oracle oracleFn) *JobRes {
 	src, dst := Tree(sc.Src), Tree(sc.Dst)
 	destDir := scratch.Dir("dest")
 	defer scratch.Remove(destDir)
+	srcDir := ""
+	if sc.DiskSrc {
+		srcDir = scratch.Dir("src")
+		defer scratch.Remove(srcDir)
+		if err := fsmodel.Materialize(src, srcDir); err != nil {
+			return &JobRes{Err: "materialize source: " + err.Error()}
+		}
+	}
 	body := func(t *testing.T, s *Stepper, x *Exec) {
 		res := &XferRes{}
 		x.Res = res
@@ -29,7 +37,7 @@ func runXferJob(t *testing.T, j *Job, r *evid.Run, oracle oracleFn) *JobRes {
 			x.Panic = "prepDest: " + err.Error()
 			return
 		}
-		xferBody(sc, src, destDir, res)(t, s, x)
+		xferBody(sc, src, srcDir, destDir, res)(t, s, x)
 		snap, err := fsmodel.Snapshot(destDir)
 		res.Dest = snap
 		if err != nil {
